@@ -226,4 +226,70 @@ theorem subsFit_runH (steps : List HStep)
       simp only [runH, hstep]
       exact ih' _ hwf (subsFit_hstepM_mesh f.mesh hf.1 hfit s m' (hall s (by simp)) hs)
 
+/-- no in-place step creates a subregion -/
+theorem hstepM_subs_nil (m : Mesh) (hsubs : m.subs = []) (s : HStep) (m' : Mesh) (h : hstepM m s = .ok m') :
+    m'.subs = [] := by
+  cases s with
+  | scaleMesh f ref =>
+    simp only [hstepM, stepM, hsubs] at h
+    split at h
+    · cases h
+    · rename_i mm ret hstep
+      injection h with h; subst h
+      split at hstep
+      · cases hstep
+      · cases hstep
+      · rename_i r0 r' subs' hr hs'
+        simp only [if_true] at hstep
+        injection hstep with hstep
+        injection hstep with h1 _
+        subst h1
+        have : mapSubs [] (fun s => scaleR s f (subRef m ref) true) = .ok [] := rfl
+        rw [this] at hs'
+        injection hs' with hs'
+        exact hs'.symm
+  | scaleRegion f ref =>
+    simp only [hstepM] at h
+    split at h
+    · cases h
+    · injection h with h; rw [← h]; exact hsubs
+  | translateMesh v =>
+    simp only [hstepM, stepM, hsubs] at h
+    split at h
+    · cases h
+    · rename_i mm ret hstep
+      injection h with h; subst h
+      split at hstep
+      · cases hstep
+      · cases hstep
+      · rename_i r0 r' subs' hr hs'
+        simp only [if_true] at hstep
+        injection hstep with hstep
+        injection hstep with h1 _
+        subst h1
+        have : mapSubs [] (fun s => translateR s v true) = .ok [] := rfl
+        rw [this] at hs'
+        injection hs' with hs'
+        exact hs'.symm
+  | translateRegion v =>
+    simp only [hstepM] at h
+    split at h
+    · cases h
+    · injection h with h; rw [← h]; exact hsubs
+
+theorem runH_subs_nil (steps : List HStep) : ∀ (f : Fld), f.mesh.subs = [] → (runH f steps).mesh.subs = [] := by
+  induction steps with
+  | nil => intro f h; exact h
+  | cons s rest ih =>
+    intro f hsubs
+    cases hs : hstepM f.mesh s with
+    | error e =>
+      have hstep : hstep f s = f := by simp only [hstep, hs]
+      simp only [runH, hstep]
+      exact ih f hsubs
+    | ok m' =>
+      have hstep : hstep f s = { f with mesh := m' } := by simp only [hstep, hs]
+      simp only [runH, hstep]
+      exact ih _ (hstepM_subs_nil f.mesh hsubs s m' hs)
+
 end DFV.C06
